@@ -1,8 +1,83 @@
+/-
+  C20: power-of-two and index arithmetic is exact over the whole integer range.
+  The definitions in `Gnet.Gen` are REGENERATED from the Go source on every run
+  (tools/cmd/gotolean); `none` = the Go function panics; Go `int` = `BitVec 64`.
+  Only property theorems and non-vacuity examples live here; helper lemmas are in
+  Gnet/Proofs/Arith.lean. Statements are never weakened to make a proof pass.
+-/
+import Gnet.Basic
 import Gnet.Gen.Arith
 import Gnet.Model.Gfd
+import Gnet.Proofs.Arith
 namespace Gnet.Props.C20
 open Gnet
 
-theorem ceil_small : Gen.CeilToPowerOfTwo 2#64 = some 2#64 := by decide
+/-- `IsPowerOfTwo` is true exactly for `2^k`. -/
+theorem ispow2_spec (n : BitVec 64) :
+    ∃ b, Gen.IsPowerOfTwo n = some b ∧ (b = true ↔ Proofs.Arith.IsPow2 n.toInt) :=
+  Proofs.Arith.ispow2_spec n
+
+/-- `CeilToPowerOfTwo`: the smallest power of two `≥ max n 2`, whenever one fits an `int`. -/
+theorem ceil_spec (n : BitVec 64) (h : n.toInt ≤ 2 ^ 62) :
+    ∃ r, Gen.CeilToPowerOfTwo n = some r ∧ Proofs.Arith.IsPow2 r.toInt ∧ max n.toInt 2 ≤ r.toInt ∧
+      ∀ p : Int, Proofs.Arith.IsPow2 p → max n.toInt 2 ≤ p → r.toInt ≤ p :=
+  Proofs.Arith.ceil_spec n h
+
+/-- it panics only when no such `int` exists -/
+theorem ceil_panics (n : BitVec 64) : Gen.CeilToPowerOfTwo n = none ↔ 2 ^ 62 < n.toInt :=
+  Proofs.Arith.ceil_panics n
+
+/-- the `Nat`-level function used by the buffer models is the generated one -/
+theorem ceil_eq_ceilPow2 (n : Nat) (h : n ≤ 2 ^ 62) :
+    Gen.CeilToPowerOfTwo (BitVec.ofNat 64 n) = some (BitVec.ofNat 64 (ceilPow2 n)) :=
+  Proofs.Arith.ceil_eq_ceilPow2 n h
+
+/-- `FloorToPowerOfTwo`: `n` for `n ≤ 2`, else the largest power of two `≤ n`; never panics. -/
+theorem floor_spec (n : BitVec 64) :
+    ∃ r, Gen.FloorToPowerOfTwo n = some r ∧
+      (n.toInt ≤ 2 → r = n) ∧
+      (2 < n.toInt → Proofs.Arith.IsPow2 r.toInt ∧ r.toInt ≤ n.toInt ∧ n.toInt < 2 * r.toInt) :=
+  Proofs.Arith.floor_spec n
+
+/-- `ClosestPowerOfTwo` for `1 ≤ n ≤ 2^62`: the nearest power of two, the upper one on a tie.
+    (`_partial`: for `2^62 < n` the Go function panics although for `n < 3*2^61` the nearer
+    neighbour `2^62` exists - see `closest_counterexample` and known_findings.json.) -/
+theorem closest_spec_partial (n : BitVec 64) (h1 : 1 ≤ n.toInt) (h2 : n.toInt ≤ 2 ^ 62) :
+    ∃ r, Gen.ClosestPowerOfTwo n = some r ∧ Proofs.Arith.IsPow2 r.toInt ∧
+      ∀ p : Int, Proofs.Arith.IsPow2 p →
+        (Int.natAbs (n.toInt - r.toInt) ≤ Int.natAbs (n.toInt - p)) ∧
+        (Int.natAbs (n.toInt - r.toInt) = Int.natAbs (n.toInt - p) → p ≤ r.toInt) :=
+  Proofs.Arith.closest_spec_partial n h1 h2
+
+/-- the full-strength statement fails at `2^62 + 1`: nearest power is `2^62`, the code panics -/
+theorem closest_counterexample :
+    Gen.ClosestPowerOfTwo (BitVec.ofNat 64 (2 ^ 62 + 1)) = none :=
+  Proofs.Arith.closest_counterexample
+
+/-- byte-slice pool size class: the smallest class whose capacity `2^i` is at least the size -/
+theorem bs_index_spec (s : BitVec 32) (h1 : 1 ≤ s.toNat) (h2 : s.toNat ≤ 2 ^ 31) :
+    ∃ i, Gen.bsIndex s = some i ∧ s.toNat ≤ 2 ^ i.toNat ∧ ∀ j : Nat, s.toNat ≤ 2 ^ j → i.toNat ≤ j :=
+  Proofs.Arith.bs_index_spec s h1 h2
+
+/-- packing (fd, loop index, row, column) and unpacking returns the same four values -/
+theorem gfd_roundtrip (fd el row col : BitVec 64) (seq : BitVec 32)
+    (hel : el.toNat < 256) (hrow : row.toNat < 256) (hcol : col.toNat < 65536) :
+    (GFD.new fd el row col seq).fd = fd ∧ (GFD.new fd el row col seq).eventLoopIndex = el ∧
+    (GFD.new fd el row col seq).row = row ∧ (GFD.new fd el row col seq).column = col ∧
+    (GFD.new fd el row col seq).sequence = seq :=
+  Proofs.Arith.gfd_roundtrip fd el row col seq hel hrow hcol
+
+/-- `UpdateIndexes` changes only row and column -/
+theorem gfd_update (fd el row col row' col' : BitVec 64) (seq : BitVec 32)
+    (hel : el.toNat < 256) (hrow : row'.toNat < 256) (hcol : col'.toNat < 65536) :
+    let g := (GFD.new fd el row col seq).updateIndexes row' col'
+    g.fd = fd ∧ g.eventLoopIndex = el ∧ g.row = row' ∧ g.column = col' ∧ g.sequence = seq :=
+  Proofs.Arith.gfd_update fd el row col row' col' seq hel hrow hcol
+
+-- non-vacuity
+example : Gen.CeilToPowerOfTwo 1000#64 = some 1024#64 := by decide
+example : Gen.FloorToPowerOfTwo (BitVec.ofNat 64 (2 ^ 40 + 5)) = some (BitVec.ofNat 64 (2 ^ 40)) := by decide
+example : Gen.ClosestPowerOfTwo 6#64 = some 8#64 := by decide
+example : Gen.bsIndex 4097#32 = some 13#32 := by decide
 
 end Gnet.Props.C20
